@@ -106,7 +106,8 @@ def page_decls(rng, base=False):
             decls.append((f'margin-{side}', dim(rng, 50, auto=0.08, pct=0.12, pcts=small) if side in ('top', 'bottom')
                           else dim(rng, 60, auto=0.1, pct=0.12, pcts=small)))
         if rng.random() < 0.12:
-            decls.append((f'padding-{side}', dim(rng, 10, auto=0, pct=0.0)))
+            # (small percentages: sheet/64, sheet/128 — every section must still fit its page)
+            decls.append((f'padding-{side}', dim(rng, 10, auto=0, pct=0.3, pcts=(F(25, 16), F(25, 32)))))
         if rng.random() < 0.1:
             decls.append((f'border-{side}-style', ('crop', rng.random() < 0.8, False)))
         if rng.random() < 0.1:
@@ -413,6 +414,7 @@ def observe(document, context):
             'groups': [[n, i] for n, i in pt.groups],
             'box': [page.width, page.height, pb.width, pb.height, pb.margin_top, pb.margin_right, pb.margin_bottom,
                     pb.margin_left],
+            'padding': [pb.padding_top, pb.padding_right, pb.padding_bottom, pb.padding_left],
             'pad': [pb.padding_top + pb.border_top_width, pb.padding_right + pb.border_right_width,
                     pb.padding_bottom + pb.border_bottom_width, pb.padding_left + pb.border_left_width],
             'bleed': [page.bleed[s] for s in ('top', 'right', 'bottom', 'left')],
@@ -485,12 +487,13 @@ def correspondence(prop, run, collect=False):
                 for pg in pages:
                     pg['groups'] = []
             boxes = pdf_boxes(document, float(zoom)) if zoom is not None else None
+            boxes1 = pdf_boxes(document, 1.0) if zoom is not None else None
         except Exception as exc:  # an exception of the implementation is an outcome
-            pages, boxes, err = None, None, f'err:{type(exc).__name__}'
-        cases.append((doc, line, pages, boxes, zoom, None if pages is not None else err))
+            pages, boxes, boxes1, err = None, None, None, f'err:{type(exc).__name__}'
+        cases.append((doc, line, pages, (boxes, boxes1), zoom, None if pages is not None else err))
     model = [None] * len(cases) if collect else lean.run_driver(prop.driver, [c[1] for c in cases])
     pdf_cases = []
-    for (doc, line, pages, boxes, zoom, err), mout in zip(cases, model):
+    for (doc, line, pages, (boxes, boxes1), zoom, err), mout in zip(cases, model):
         meta = {'fn': 'doc', 'doc': doc, 'html': doc_html(doc)}
         if pages is None:
             sec.add(line, err, meta=meta, tags=['raised'])
@@ -522,7 +525,8 @@ def correspondence(prop, run, collect=False):
                 w, h = p['box'][0], p['box'][1]
                 pline = sx.line('pdfboxes', F(w), F(h), [F(b) for b in p['bleed']], zoom)
                 pdf_cases.append((pline, rects, {'fn': 'pdf', 'args': [w, h, p['bleed'], str(zoom)], 'html': meta['html'],
-                                                 'page': i}, any(p['bleed'])))
+                                                 'page': i, 'rects1': [[float(v) for v in r] for r in boxes1[i]]},
+                                  any(p['bleed'])))
     pmodel = [None] * len(pdf_cases) if collect else lean.run_driver(prop.driver, [c[0] for c in pdf_cases])
     for (pline, rects, meta, nontrivial), mout in zip(pdf_cases, pmodel):
         matoms = None
@@ -706,17 +710,30 @@ def judge_match(args, impl):
     return None
 
 
+def lone_plus_nth(text):
+    """Known finding page-nth-lone-plus-crash: some `:nth()` of the prelude has the an+b part `+` alone (the
+    slice of the arguments that parse_page_selectors hands to tinycss2 is the single literal `+`)."""
+    import tinycss2
+    rule = tinycss2.parse_one_rule('@page ' + text + '{}')
+    for tok in getattr(rule, 'prelude', None) or []:
+        if tok.type != 'function' or tok.name != 'nth':
+            continue
+        nth = tok.arguments
+        for i, arg in enumerate(tok.arguments):
+            if arg.type == 'ident' and arg.value == 'of':
+                nth = tok.arguments[:i - 1]
+                break
+        if len(nth) == 1 and nth[0].type == 'literal' and nth[0].value == '+':
+            return True
+    return False
+
+
 def judge_parsesel(text, impl):
     """Only the clauses that need no second parser: well-formed simple selectors are accepted with
     the specificity triple (names, :first/:blank/:nth, :left/:right)."""
     import re
-    if impl == 'err:AttributeError':
-        # known finding page-nth-trailing-sign-crash: tinycss2 parse_nth raises on a trailing sign
-        for arg in re.findall(r':nth\(([^)]*)\)', text):
-            arg = re.sub(r'/\*.*?\*/', ' ', arg)
-            arg = re.split(r'\bof\b', arg)[0].strip()
-            if arg.endswith(('+', '-')):
-                return None
+    if impl == 'err:StopIteration' and lone_plus_nth(text):
+        return None         # known finding page-nth-lone-plus-crash
     if impl.startswith('err:'):
         return f'parse_page_selectors raised {impl} on {text!r}'
     simple = re.fullmatch(r'\s*([a-zA-Z][a-zA-Z0-9-]*)?((?::(?:left|right|first|blank))*)\s*', text)
@@ -925,6 +942,26 @@ def doc_oracle(doc, pages):
         for i, p in enumerate(pages):
             if abs(p['box'][0] - float(F(sw))) > eps or abs(p['box'][1] - float(F(sh))) > eps:
                 return f"page {i}: Page.width x height = {p['box'][0]} x {p['box'][1]}, @page size is {float(F(sw))} x {float(F(sh))}"
+    # paddings of the page box: a length is itself, a percentage refers to the sheet width (left / right) or the
+    # sheet *height* (top / bottom) — css-page-3 §7; judged when every rule declaring the padding is unconditional
+    # and the page box fills the sheet (no width / height / min / max)
+    if not any(nm in sizing for r in doc['rules'] for nm, _, _ in r['decls']):
+        for k, side in enumerate(('top', 'right', 'bottom', 'left')):
+            pad_rules = [r for r in doc['rules'] if any(nm == f'padding-{side}' for nm, _, _ in r['decls'])]
+            if not pad_rules or any(r['sel'].strip() for r in pad_rules):
+                continue
+            cands = [(bool(imp), idx, j, v) for idx, r in enumerate(pad_rules)
+                     for j, (nm, v, imp) in enumerate(r['decls']) if nm == f'padding-{side}']
+            v = max(cands, key=lambda c: c[:3])[3]
+            for i, p in enumerate(pages):
+                if 'padding' not in p:
+                    continue
+                sheet = p['box'][1] if side in ('top', 'bottom') else p['box'][0]
+                want = sheet * float(F(v[1])) / 100 if isinstance(v, tuple) else float(F(v))
+                if abs(p['padding'][k] - want) > eps:
+                    return (f"page {i}: padding-{side}: {css_dim(v)} of the page box on a {p['box'][0]} x {p['box'][1]} "
+                            f"sheet is {p['padding'][k]}, expected {want} (percentages refer to the sheet "
+                            f"{'height' if side in ('top', 'bottom') else 'width'})")
     # page box = what remains; margin boxes fill their strip
     for i, p in enumerate(pages):
         w, h, cw, ch, mt, mr, mb, ml = p['box']
@@ -1106,9 +1143,15 @@ def doc_oracle(doc, pages):
     return None
 
 
-def pdf_oracle(w, h, bleed, zoom, rects):
-    """MediaBox = image of the CSS bleed area, TrimBox = image of the page box (PDF y axis up)."""
+def pdf_oracle(w, h, bleed, zoom, rects, rects1=None):
+    """MediaBox = image of the CSS bleed area, TrimBox = image of the page box (PDF y axis up); zoom is a
+    uniform scale: every box at zoom z is z times the same box at zoom 1 (`rects1`, when given)."""
     eps = 1e-6
+    if rects1 is not None:
+        for name, at_z, at_1 in zip(('MediaBox', 'TrimBox', 'BleedBox'), rects, rects1):
+            if max(abs(a - float(zoom) * b) for a, b in zip(at_z, at_1)) > eps:
+                return (f'{name} {list(at_z)} at zoom {zoom} is not {zoom} times the {name} {list(at_1)} of the same '
+                        f'page at zoom 1')
     s = 0.75 * float(zoom)
     bt, br, bb, bl = [float(b) for b in bleed]
     media, trim, bleed_box = rects
@@ -1132,11 +1175,11 @@ def is_known_mirror(bleed):
 def judge_doc(meta, d):
     if meta.get('fn') == 'pdf':
         w, h, bleed, zoom = meta['args']
-        what = pdf_oracle(float(w), float(h), bleed, F(zoom), meta['rects'])
+        what = pdf_oracle(float(w), float(h), bleed, F(zoom), meta['rects'], meta.get('rects1'))
         if what and is_known_mirror(bleed):
             # only the listed defect? check again with the top/bottom bleeds exchanged
             swapped = [bleed[2], bleed[1], bleed[0], bleed[3]]
-            if pdf_oracle(float(w), float(h), swapped, F(zoom), meta['rects']) is None:
+            if pdf_oracle(float(w), float(h), swapped, F(zoom), meta['rects'], meta.get('rects1')) is None:
                 return None
         return what
     if d['impl'].startswith('err:'):
@@ -1152,11 +1195,12 @@ def replay_doc(meta):
         document = docs.render(meta['html'])
         zoom = F(meta['args'][3])
         rects = pdf_boxes(document, float(zoom))[meta.get('page', 0)]
+        rects1 = pdf_boxes(document, 1.0)[meta.get('page', 0)]
         page = document.pages[meta.get('page', 0)]
         bleed = [page.bleed[s] for s in ('top', 'right', 'bottom', 'left')]
-        what = pdf_oracle(page.width, page.height, bleed, zoom, rects)
+        what = pdf_oracle(page.width, page.height, bleed, zoom, rects, rects1)
         if what and is_known_mirror(bleed) and pdf_oracle(
-                page.width, page.height, [bleed[2], bleed[1], bleed[0], bleed[3]], zoom, rects) is None:
+                page.width, page.height, [bleed[2], bleed[1], bleed[0], bleed[3]], zoom, rects, rects1) is None:
             return None
         return what
     doc = revive_doc(meta['doc'])
@@ -1236,7 +1280,14 @@ def search(prop, run, failures):
     docs.quiet()
     collector = _Collector(prop, run)
     names = {f['name'] for f in failures if f['kind'] == 'correspondence'}
-    order = [('page-box', prop._page_box), ('page-min-max', prop._page_box), ('fixed-dimension', prop._fixed),
+    from harness import c14_percent, c14_regress, c14_sheet
+    sheet = lambda run, rng: c14_sheet.correspondence(prop, run)           # noqa: E731
+    regress = lambda run, rng: c14_regress.correspondence(prop, run)       # noqa: E731
+    percent = lambda run, rng: c14_percent.correspondence(prop, run)       # noqa: E731
+    order = [('fixed-regressions', regress), ('fixed-regressions-pdf', regress),
+             ('resolve-percentages', percent), ('page-box-percentages', percent),
+             ('size-values', sheet), ('marks-bleed-values', sheet), ('sheet-documents', sheet),
+             ('page-box', prop._page_box), ('page-min-max', prop._page_box), ('fixed-dimension', prop._fixed),
              ('variable-dimension', prop._variable), ('init-side', prop._sides), ('remake-side', prop._sides),
              ('page-states', prop._counters), ('update-counters', prop._counters),
              ('standardize-counters', prop._counters), ('named-strings', prop._strings),
@@ -1270,10 +1321,12 @@ def finding_media_box_mirror():
     return pdf_oracle(100.0, 200.0, [40, 0, 4, 0], 1, rects) is not None
 
 
-def finding_nth_trailing_sign():
+def finding_nth_lone_plus():
     try:
-        docs.render('<style>@page :nth(2n+) { margin: 1px }</style><p>x')
-    except AttributeError:
+        docs.render('<style>@page :nth(+) { margin: 1px }</style><p>x')
+    except RuntimeError as exc:
+        return isinstance(exc.__cause__, StopIteration)
+    except StopIteration:
         return True
     return False
 
@@ -1343,4 +1396,4 @@ def finding_element_start():
 def finding_replays():
     return {'element-from-named-page-crashes-margin-box': finding_element_named_page_crash,
             'element-start-ignores-running-elements': finding_element_start,'page-group-not-started-on-first-page': finding_page_group_first_page,'page-group-index-counts-blank-page': finding_page_group_counts_blank,'page-groups-lost-on-remake': finding_page_groups_lost_on_remake,'margin-boxes-overlap-at-min-content': finding_margin_boxes_overlap,'media-box-vertical-mirror': finding_media_box_mirror,
-            'page-nth-trailing-sign-crash': finding_nth_trailing_sign}
+            'page-nth-lone-plus-crash': finding_nth_lone_plus}
